@@ -328,6 +328,28 @@ def pure_gen(tier, rnd, mat):
         ("dec_jwk", [J(JWE["A128KW"]), NUL, J(K["kw"])]),
         ("dec_jwk", [J(JWE["dir"]), NUL, J(K["dir"])]),
         ("dec_jwk", [J(JWE["ECDH-ES"]), NUL, J(K["ec"])]),
+    ]
+    # the same ECDH-ES object with an ephemeral key that carries MORE than a public key needs (usage members, an
+    # unknown member): whatever the unwrap does with the peer's key, it must not touch the caller's object
+    def epk_variant(extra, where="header"):
+        j = json.loads(json.dumps(JWE["ECDH-ES"]))
+        hd = j.get("header") or {}
+        if "epk" not in hd:
+            return None
+        epk = dict(hd["epk"], **extra)
+        if where == "header":
+            j["header"] = dict(hd, epk=epk)
+        else:
+            j["header"] = {m: v for m, v in hd.items() if m != "epk"}
+            j["unprotected"] = dict(j.get("unprotected") or {}, epk=epk)
+        return j
+    for extra in ({"key_ops": ["deriveKey", "sign"]}, {"key_ops": ["deriveKey", "decrypt", "unwrapKey"]}, {"use": "enc"}, {"kid": "e", "zz": [1]}):
+        for where in ("header", "unprotected"):
+            v = epk_variant(extra, where)
+            if v is not None:
+                base.append(("dec", [J(v), NUL, J(K["ec"])]))
+                base.append(("dec_jwk", [J(v), NUL, J(K["ec"])]))
+    base += [
         ("dec_jwk", [J(JWE["ECDH-ES"]), J(JWE["ECDH-ES"]), J(K["ec2"])]),
         ("dec_jwk", [J(JWE["multi"]), J(multi_rcp[1]), J(K["ec"])]),
         ("dec_jwk", [J(JWE["multi"]), NUL, J([K["rsa"], K["ec"]])]),
